@@ -6,7 +6,7 @@ sys.path.insert(0, os.path.join(HERE, 'lib')); sys.path.insert(0, HERE)
 props = [json.loads(l) for l in open(os.path.join(HERE, 'properties.jsonl'))]
 
 LEVEL = {
- 'C01': ('E2', 'runtime contract (fiber kernel) scenarios: swap targets saved/not running, deferred actions, wake-before-switch windows, over all interleavings of 2 kernel threads within the bounds'),
+ 'C01': ('E2+E1', 'runtime contract (fiber kernel) scenarios: swap targets saved/not running, deferred actions, wake-before-switch windows, over all interleavings of 2 kernel threads within the bounds; plus the fd wait of fiber_event_native.c (a further user of the deferred hand-off) as an E1 step shared with C08'),
  'C02': ('E2', 'Chase-Lev deque of work_stealing_deque.c: every interleaving (SC) and every store-buffer reordering (x86-TSO) of one owner and 1-2 thieves within the stated operation counts, incl. the growth boundary'),
  'C03': ('E1+E2', 'rely/guarantee step over the mutex counter (one lock/trylock/unlock from any number < 2^20 of contenders with arbitrary interference; covers histories of any length for the counter protocol) + mutex over the fiber contract kernel: all interleavings of 2-3 fibers'),
  'C04': ('E2', 'join / detach (quick) and tryjoin, join-with-NULL-result, two concurrent actors (thorough, stretch) against the real fiber.c completion path over the fiber contract kernel: all interleavings of the stated actors; the VM liveness ghost decides reclaimed-once / never touched afterwards'),
